@@ -84,8 +84,6 @@ Definition recv (ps : list path) (addr n : Z) (fs : list fate) : list path :=
   let ps := match find_path addr ps with Some _ => update_path cur ps | None => ps end in
   apply_fates ps cur fs.
 
-Definition zsum (l : list Z) : Z := fold_right Z.add 0 l.
-
 (* bytes_sent accounting of one send round returning datagrams of lengths [lens] *)
 Definition send_lens (ps : list path) (lens : list Z) : list path :=
   match ps with
